@@ -44,6 +44,7 @@ def check(ctx):
     r06_5(ctx, m)
     r06_6(ctx)
     r06_7(ctx, m)
+    r06_8(ctx, m)
     ctx.not_decided += [
         "that articulation points / biconnected components / the DFS order are the true ones on every graph (C15)",
         "independence from set/dict iteration order inside biccs (hash randomisation) beyond the orientation fix-up",
@@ -471,3 +472,53 @@ def _resolve(f, e):
     from ..core import resolve_expr
 
     return resolve_expr(f.node, e)
+
+
+def r06_8(ctx, m):
+    """Blocks of the block-cut decomposition become elements of the chain by what they contain: a block with nodes
+    besides articulation points is a bubble; a block made of articulation points only is a plain link between two scaffold
+    nodes.  The test that separates the two must be the emptiness of `block - articulation points` (not the size of the
+    block: a chain end hanging on one link is a two-node block with an inside node)."""
+    from ..core import local_defs, resolve_expr
+    from ..paths import canon_test
+
+    repo = ctx.repo
+    # the function that builds the scaffold graph: dec itself or a helper it calls
+    cands = [m.dec] + [h for c in walk_own(m.dec.node) if isinstance(c, ast.Call) for h in [repo.resolve_call(m.dec, c)] if h is not None and h.module is m.mod]
+    site = None
+    for f in cands:
+        for lp in walk_own(f.node):
+            if not isinstance(lp, ast.For):
+                continue
+            diffs = [st for st in lp.body if isinstance(st, ast.Assign) and isinstance(st.value, ast.Call) and isinstance(st.value.func, ast.Attribute) and st.value.func.attr == "difference" and norm(st.value.func.value) == norm(lp.target)]
+            if diffs:
+                site = (f, lp, diffs[0])
+    if site is None:
+        raise AnalysisError("R06.8", m.dec.where(), "cannot find the loop over the biconnected components (block.difference(articulation points))")
+    f, lp, d = site
+    ctx.analysed_func(f)
+    inside = norm(d.targets[0])
+    # the branch test: the If of the loop body one of whose arms adds a '+','+' link between two unpacked end nodes / appends the bubble
+    branch = None
+    for st in lp.body:
+        if isinstance(st, ast.If) and any(isinstance(c, ast.Call) and isinstance(c.func, ast.Attribute) and c.func.attr == "append" and c.args and norm(c.args[0]) == inside for c in ast.walk(st)):
+            branch = st
+    if branch is None:
+        # continue-guard form: `if inside: ...bubble...; continue` followed by the link case
+        for st in lp.body:
+            if isinstance(st, ast.If) and inside in names_in(st.test):
+                branch = st
+                break
+    if branch is None:
+        raise AnalysisError("R06.8", f.where(lp), "cannot find the test that separates bubbles from plain links")
+    bubble_in_body = any(isinstance(c, ast.Call) and isinstance(c.func, ast.Attribute) and c.func.attr == "append" and c.args and norm(c.args[0]) == inside for b_ in branch.body for c in ast.walk(b_))
+    t, pol = canon_test(branch.test, True)
+    empties = {f"len({inside}) == 0": True, f"{inside} == set()": True, f"len({inside}) > 0": False, f"len({inside}) >= 1": False, f"len({inside}) < 1": True, inside: False, f"bool({inside})": False}
+    if t not in empties:
+        if inside not in names_in(branch.test):
+            ctx.violated("R06.8", f.where(branch), f"bubbles and plain links are told apart by `{norm(branch.test)}`, which does not look at the nodes inside the block (`{inside}` = block minus articulation points)", key_of(f, f"block-kind-test:{norm(branch.test)}"))
+            return
+        raise AnalysisError("R06.8", f.where(branch), f"cannot read the bubble / link test `{norm(branch.test)}`")
+    body_when_empty = empties[t] == pol  # True: the If body runs when the block has no inside node
+    ok = body_when_empty != bubble_in_body
+    ctx.check(ok, "R06.8", f.where(branch), "a block is a bubble exactly when it has nodes besides articulation points (emptiness of block - articulation points), otherwise a link between its two scaffold ends", key_of(f, f"block-kind:{t}:{pol}:{bubble_in_body}"), test=norm(branch.test))
